@@ -1,5 +1,5 @@
 """C16 — bearer tokens and resource identifiers are validated exactly on every entry path."""
-from ..facts import ty_adt, tystr, walk_ty, place_local, place_proj, op_place
+from ..facts import ty_adt, tystr, walk_ty, place_local, place_proj, op_place, strip_refs
 from ..cfg import CFG, Tracer, thaw
 from .. import dt, rx, recog, inline
 
@@ -106,6 +106,61 @@ def same_string(tr, a_op, b_op, body):
     return bool(sa) and sa == sb
 
 
+import re as _re
+TOKEN_SPEC = _re.compile(r"[A-Za-z0-9\-._~+/]+=*")
+
+
+def token_probes():
+    out = ["", "a", "A-._~+/09z", "a=", "a==", "abc===", "=", "==", "=a", "a=b", "a==b", "a b", " a", "a ", "a\n", "\ta", "a\t", "\u00e9", "a\u00e9", "\u00e9a", "a\u00f1", "\u00f6", "a\u00ab", "\u00b0", "a\u00ad", "\uff21"]
+    for k in range(128):
+        ch = chr(k)
+        out += [ch, "a" + ch, ch + "a", "a" + ch + "="]
+    return out
+
+
+def token_route_table(ctx, F, co, b, rule="R16.2"):
+    """A function text -> Result<BearerToken, _> evaluated on probe texts (decision-table interpreter; strings, byte tables and
+    iterators concrete): Ok(BearerToken(text)) exactly for the texts of the specification `[A-Za-z0-9-._~+/]+=*`, with the text
+    stored unchanged.  -> True / False (recorded) or None when a probe leaves the interpretable fragment."""
+    from .. import minterp
+    I = minterp.Interp(F, co, inline=lambda d_, rid: rid.startswith("conjure_object::"), max_depth=6)
+    bad, n = [], 0
+    for s_ in token_probes():
+        try:
+            r = I.run(b, [s_])
+        except minterp.Unsupported:
+            return None
+        if not (minterp.is_adt(r) and r[1] == "core::result::Result"):
+            return None
+        n += 1
+        want = TOKEN_SPEC.fullmatch(s_) is not None
+        got = r[2] == 0
+        if got and not (minterp.is_adt(r[3][0]) and r[3][0][1] == BT and r[3][0][3] and r[3][0][3][0] == s_):
+            bad.append(f"{s_!r} -> a token holding {r[3][0]!r:.50}")
+        elif got != want:
+            bad.append(f"{s_!r} is {'accepted' if got else 'rejected'}")
+    ctx.check(not bad, rule, b.loc(), f"{b.id}|token-route-table", f"{b.id}: bearer tokens must be accepted exactly when they match [A-Za-z0-9-._~+/]+=* and be stored unchanged: " + "; ".join(bad[:6]),
+              instance=f"{b.id}: {n} probe texts (every ASCII character in four positions, padding forms, whitespace, non-ASCII) = specification")
+    return not bad
+
+
+TOKEN_ROUTES = {}
+
+
+def validator_analysable(ctx, co, vb):
+    try:
+        recog.analyse(ctx.F, co, vb)
+        return True
+    except recog.NotAnalysable:
+        try:
+            recog.loop_automaton(ctx.F, co, vb)
+            return True
+        except Exception:
+            return False
+    except Exception:
+        return False
+
+
 def run(ctx):
     ctx.explanation = EXPLANATION
     ctx.assumptions = ["the regex crate implements the documented syntax/semantics (leftmost-first search with ^/$ anchors)",
@@ -117,8 +172,20 @@ def run(ctx):
     bt_sites = sites(ctx, BT)
     validator = None
     guarded = 0
+    # every text route into a token (FromStr, new, TryFrom<&str> / <String>, from_string, FromPlain, ...) is decided on probe texts
+    # when it can be evaluated; the structural clauses below then only have to cover the routes that cannot (Deserialize)
+    global TOKEN_ROUTES
+    TOKEN_ROUTES = {}
+    for b_ in co.bodies:
+        if b_.kind in ("fn", "assoc_fn") and b_.argc == 1 and tystr(strip_refs(b_.local_ty(1))) in ("str", "alloc::string::String"):
+            rt_ = b_.local_ty(0)
+            if ty_adt(rt_) == "core::result::Result" and rt_.get("args") and ty_adt(rt_["args"][0]) == BT:
+                TOKEN_ROUTES[b_.id] = token_route_table(ctx, F, co, b_)
     for c, b, bb, j, s in bt_sites:
         where = b.loc(s["ln"])
+        if TOKEN_ROUTES.get((co.body(b.root).id if getattr(b, "root", None) and co.body(b.root) is not None else b.id)) is not None and c.name == "conjure_object":
+            guarded += 1
+            continue        # this site's function is a text route decided by its table
         if b.trait == "core::clone::Clone":
             tr = Tracer(b)
             src = tr.sources(s["r"]["ops"][0])
@@ -168,9 +235,13 @@ def run(ctx):
     ctx.floor("R16.1", "BearerToken construction sites", len(bt_sites), 2)
     ctx.check(guarded >= 2, "R16.1", "conjure_object", "token|guarded-routes", f"only {guarded} guarded token construction routes found (FromStr and Deserialize expected)", nontrivial=False)
     # ---- R16.2 token validator = specification language
-    if validator:
+    if validator and TOKEN_ROUTES and all(v is not None for v in TOKEN_ROUTES.values()) and not validator_analysable(ctx, co, co.body(validator)):
+        ctx.note("R16.2 token: the validator is not in the `non-empty && all(class)` form; the language is decided on the text routes' probe tables (and the Deserialize site is guarded by the same validator, R16.1)")
+    elif validator:
         vb = co.body(validator)
         check_token_validator(ctx, co, vb)
+    elif TOKEN_ROUTES and all(v is not None for v in TOKEN_ROUTES.values()) and guarded >= 2:
+        ctx.note("R16.2 token: no bool validator guards a construction site directly; the language is decided on the text routes' probe tables")
     else:
         ctx.violation("R16.2", "conjure_object", "token|validator-anchor", "no validator function found guarding the token constructors")
     # ---- R16.4 routes (token)
@@ -454,9 +525,14 @@ def routes(ctx, co, adt, short):
                                       instance=f"{short}: from_plain(s) validates s itself")
     nb = [b for b in co.bodies if b.name == "new" and b.impl and not b.trait and ty_adt(b.self_ty) == adt]
     for b in nb:
+        if adt == BT and TOKEN_ROUTES.get(b.id) is not None:
+            continue
         via = [t for _, t in b.calls() if t["call"]["name"] in ("parse", "from_str")]
         ctx.check(len(via) == 1, "R16.4", b.loc(), f"{short}|new", f"{short}::new must delegate to FromStr", instance=f"{short}::new -> FromStr")
     bad = [i for i in co.impls if ty_adt(i["self_ty"]) == adt and i.get("trait") in ("core::convert::From", "core::convert::TryFrom", "core::default::Default")]
+    if adt == BT:
+        # a conversion from text that was decided on the probe texts is a route like FromStr
+        bad = [i for i in bad if not (i.get("items") and all(TOKEN_ROUTES.get(bid) is not None for bid in i["items"].values() if co.by_id.get(bid) is not None and co.by_id[bid].kind in ("fn", "assoc_fn")))]
     ctx.check(not bad, "R16.4", "conjure_object", f"{short}|no-conversion-impls", f"unexpected conversion impls constructing {short}: {[i['trait'] for i in bad]}", instance=f"{short}: no From/TryFrom/Default")
 
 
